@@ -525,7 +525,7 @@ THING_LINES = [
     "obj: dict[str, Any]",
     "user_id: int",
     "class_: List[str] | None = field(default_factory=list)  # Maps from 'class'",
-    "lvl: Level | None = Level.N/A",
+    "lvl: Level | None = Level(\"N/A\")",
     "meta: dict[str, Any] | None = field(default_factory=dict)",
     "user_id_2: bool | None = True  # Maps from 'user-id'",
     "user_id_3: str | None = \"a\\\"b\\\\\"  # Maps from 'userId'",
@@ -737,9 +737,15 @@ def _eval_case(case: dict) -> list:
         pname = p.get("name")
         es = reg.get(pname) if (pname and reg) else None
         if dv is not None and es is not None and es.enum:
-            member = d[len(pname) + 1:] if d.startswith(pname + ".") else None
+            # F53 repaired: the default is a lookup BY VALUE, `Name(<literal>)`; the literal must be the value of a generated member
             members = _enum_members(pname)
-            hit = [v for m, v in members if m == member]
+            hit = []
+            if d.startswith(pname + "(") and d.endswith(")"):
+                try:
+                    x = ast.literal_eval(d[len(pname) + 1:-1])
+                    hit = [v for m, v in members if v == x and type(v) is type(x)]
+                except (ValueError, SyntaxError):
+                    hit = []
             in_enum = any(_same_value(dv, v) or (isinstance(dv, str) and str(v) == dv) for v in es.enum)
             if not in_enum:
                 continue                 # a default outside the enum: not this property
